@@ -194,7 +194,11 @@ def gen_stream(r):
 def gen_case(r):
     nsess = r.pick([1, 1, 2, 2, 3])
     streams, order = [], []
-    for sid in range(1, nsess + 1):
+    sids = list(range(1, nsess + 1))
+    if r.chance(1, 2):                      # streams listed in a non-ascending sid order
+        for i in range(len(sids) - 1, 0, -1):
+            j = r.below(i + 1); sids[i], sids[j] = sids[j], sids[i]
+    for sid in sids:
         cache = sid if r.chance(4, 5) else r.pick([1, 2])
         pdus, ends = gen_stream(r)
         streams.append(dict(sid=sid, cache=cache, pdus=pdus, ends=ends, total=sum(map(plen, pdus)), pos=0,
